@@ -154,6 +154,18 @@ pub struct LogicalOpts {
     pub concat_dup: bool,
     /// (loose / concat) list the content packs in the manifest in a seeded order instead of by id
     pub shuffle_manifest: bool,
+    /// (loose / concat) pack ids in 1..=n_packs for which NO pack exists (bit p-1): content pack
+    /// ids are chosen freely by the application and need not be contiguous
+    pub absent_ids: u32,
+    /// (loose / concat) the directory pack is listed after the first content pack in the manifest
+    /// instead of first
+    pub dir_not_first: bool,
+}
+
+impl LogicalOpts {
+    pub fn is_absent(&self, p: u16) -> bool {
+        p >= 1 && p <= 32 && self.absent_ids & (1 << (p - 1)) != 0
+    }
 }
 
 /// What was written, as the generator knows it (the reference model).
@@ -186,6 +198,18 @@ pub struct Model {
     pub variants: bool,
     /// number of contents per pack id (index 0 unused)
     pub pack_counts: Vec<u32>,
+    /// ids in 1..=n_packs without a pack (bit p-1)
+    pub absent_ids: u32,
+}
+
+impl Model {
+    pub fn is_absent(&self, p: u16) -> bool {
+        p >= 1 && p <= 32 && self.absent_ids & (1 << (p - 1)) != 0
+    }
+    /// ids of the content packs that exist
+    pub fn pack_ids(&self) -> Vec<u16> {
+        (1..=self.n_packs).filter(|p| !self.is_absent(*p)).collect()
+    }
 }
 
 #[derive(Clone, Debug)]
@@ -685,9 +709,11 @@ pub fn plan_model(logical: &Logical) -> Model {
     let mut model = Model {
         n_packs: logical.n_packs,
         pack_counts: vec![0; logical.n_packs as usize + 1],
+        absent_ids: logical.opts.absent_ids,
         ..Default::default()
     };
     for c in &logical.contents {
+        assert!(!logical.opts.is_absent(c.pack), "content in an absent pack");
         let id = model.pack_counts[c.pack as usize];
         model.pack_counts[c.pack as usize] += 1;
         model.contents.push(ContentModel {
@@ -723,6 +749,9 @@ fn build_inner(
             let mut pack_files = HashMap::new();
             let mut pack_datas = Vec::new();
             for p in 1..=logical.n_packs {
+                if logical.opts.is_absent(p) {
+                    continue;
+                }
                 let path = dir.join(format!("{name}.c{p}.jbkc"));
                 let mut cpc = creator::ContentPackCreator::new_with_progress(
                     utf8(&path),
@@ -769,7 +798,10 @@ fn build_inner(
 
             let mut mpc = creator::ManifestPackCreator::new(vendor, Default::default());
             let loc = |s: String| if logical.opts.empty_locations { String::new() } else { s };
-            mpc.add_pack(dir_data, loc(format!("{name}.jbkd")));
+            let mut dir_data = Some(dir_data);
+            if !logical.opts.dir_not_first {
+                mpc.add_pack(dir_data.take().unwrap(), loc(format!("{name}.jbkd")));
+            }
             let mut pack_datas = pack_datas;
             if logical.opts.shuffle_manifest {
                 let mut rng = Rng::derive(logical.aux_seed, "manifest-order", 0);
@@ -783,6 +815,12 @@ fn build_inner(
                     data,
                     loc(path.file_name().unwrap().to_str().unwrap().to_string()),
                 );
+                if let Some(d) = dir_data.take() {
+                    mpc.add_pack(d, loc(format!("{name}.jbkd")));
+                }
+            }
+            if let Some(d) = dir_data.take() {
+                mpc.add_pack(d, loc(format!("{name}.jbkd")));
             }
             let man_path = dir.join(format!("{name}.jbkm"));
             let mut man_file = std::fs::OpenOptions::new()
@@ -796,7 +834,9 @@ fn build_inner(
 
             let mut files = vec![man_path.clone(), dir_path.clone()];
             for p in 1..=logical.n_packs {
-                files.push(pack_files[&p].clone());
+                if let Some(f) = pack_files.get(&p) {
+                    files.push(f.clone());
+                }
             }
             if logical.packaging == Packaging::Concat {
                 let mut order = files.clone();
@@ -829,6 +869,7 @@ fn build_inner(
             }
         }
         Packaging::BasicOne | Packaging::BasicTwo | Packaging::BasicNoConcat => {
+            assert!(logical.opts.absent_ids == 0 && !logical.opts.dir_not_first, "sparse ids / manifest order: loose and concat packagings only");
             let mode = match logical.packaging {
                 Packaging::BasicOne => ConcatMode::OneFile,
                 Packaging::BasicTwo => ConcatMode::TwoFiles,
